@@ -215,6 +215,31 @@ CHECKS['C13'] = dict(
     note=COMMON_NOTE + 'Partial: the runtime part (clock, RNG, pickling) is decided on the implementation only.',
     technique='Lean 4 proof on generated tables and the compile-time evaluation model + counter-clock observation of the implementation')
 
+CHECKS['C16'] = dict(
+    text=('Lean 4 theorems (XL.Props.C16): write_placement — pairing the row-major enumeration of a rectangle\'s cells with the '
+          'row-major enumeration of a value matrix of the same shape puts v[i][j] at (r1+i, c1+j), for every rectangle and '
+          'matrix (zip/flatten induction); written_cell, untouched_outside (nothing outside the rectangle is paired); '
+          'conv_spec (EMPTY and empty text -> empty cell, error -> its text). PARTIAL: openpyxl serialisation, the file '
+          'system and case-insensitive book/sheet lookup cannot be reached by Lean; the check writes solutions of random '
+          'workbooks (all value kinds, several sheets, array-formula ranges, overridden inputs) into fresh books, into the '
+          'loaded books (with extra untouched cells) and to disk, re-reads them with openpyxl and runs compare().'),
+    design='DESIGN.md §3 C16',
+    note=COMMON_NOTE + 'Partial: files, openpyxl and compare() are exercised on the implementation only; a double written '
+         'to disk is compared within 1e-12 relative (openpyxl serialises 16 significant digits).',
+    technique='Lean 4 proof of the placement pairing + write/read-back oracle on the implementation')
+
+CHECKS['C17'] = dict(
+    text=('Lean 4 theorems (XL.Props.C17) fix the abstract contract only: copy_equivalent and copies_independent (in a '
+          'two-handle state machine over the workbook model every observation, after any interleaving of operations on '
+          'the two handles, equals the observation on a never-copied twin — induction over the operation list). PARTIAL: '
+          'the substance of the property is shared mutable state in CPython (Ranges._value, dispatcher defaults, '
+          'lru_caches, the module-level memo of eng.py, dill), which no pure model exhibits; it is decided by the check: '
+          'deepcopy and dill copies of models (also circular, also warm) and of compiled functions, random interleavings '
+          'of up to 6 operations on original and copy, every observation compared with a never-copied twin.'),
+    design='DESIGN.md §3 C17',
+    note=COMMON_NOTE + 'Partial claim. Known finding copy-refinish.',
+    technique='Lean 4 contract theorem (two-handle state machine) + interleaving test against never-copied twins')
+
 NOT_YET = {
 }
 
